@@ -39,16 +39,18 @@ Inductive rule := Required | Optional | Forbidden.
 
 (* [Required]: the field must have a value (absent and null are both errors).
    [Optional]: the field is not nullable, so only null is an error.
-   [Forbidden]: the field must not have a value.  An explicit `null` on a forbidden field is tolerated by the
-   code (`has_value()` in file_info.rs, [forbid]/[has_value] in Model/Parse.v) and therefore by this rule. *)
+   [Forbidden]: the field must be absent.  A value is an error ("a file-entry field that its kind forbids") and so
+   is an explicit `null`: none of these fields is nullable ("`null` for a non-nullable field").
+   KNOWN DEVIATION of the implementation: it tolerates the `null` (`has_value()` in file_info.rs, [forbid] /
+   [has_value] in Model/Parse.v); see [Known_C16_null_forbidden_field] below. *)
 Definition meets {A} (r : rule) (x : an A) : bool :=
   match r, x with
   | Required, Value _ => true
   | Required, _ => false
   | Optional, Null => false
   | Optional, _ => true
-  | Forbidden, Value _ => false
-  | Forbidden, _ => true
+  | Forbidden, Absent => true
+  | Forbidden, _ => false
   end.
 
 Definition rule_path k := match k with KObject | KArchive => Required | _ => Forbidden end.
@@ -219,7 +221,7 @@ Definition valid (d : document_serial) : bool :=
   not_null (ds_required_symbols d) && forallb valid_required (an_list (ds_required_symbols d)) &&
   not_null (ds_asserts d) && forallb valid_assert (an_list (ds_asserts d)).
 
-(* ---------- the known deviation ---------- *)
+(* ---------- the first known deviation ---------- *)
 (* The plain `String` fields (segment / class / assignment / required-symbol name, assignment value, assert
    check and error_message) are not AbsentNullable in the Rust structs, and serde_yaml reads the YAML scalar
    `null` into a String as the four characters "null" ([plain_str] in Model/Types.v).  So a null there is
@@ -231,6 +233,85 @@ Definition Known_C16_null_plain_string (d : document_serial) : bool :=
   existsb (fun a => is_null (as_name a) || is_null (as_value a)) (an_list (ds_symbol_assignments d)) ||
   existsb (fun r => is_null (rs_name r)) (an_list (ds_required_symbols d)) ||
   existsb (fun a => is_null (ats_check a) || is_null (ats_error_message a)) (an_list (ds_asserts d)).
+
+(* ---------- the second known deviation ---------- *)
+(* A file entry may carry an explicit `null` on a field that its kind forbids, e.g.
+   `{ path: a.o, kind: object, pad_amount: null, subfile: null }`.  The field is not nullable and the kind forbids
+   it, so the document must be rejected and [valid] says so ([meets Forbidden Null = false]); the implementation
+   only asks `has_value()` and ACCEPTS the entry, treating the null as if the field were absent.
+   This predicate is true iff some file entry, at any nesting depth of any segment, has such a null.  The kind is
+   the same [effective_kind] and the table the same [rule_*] as in [valid_file].
+   When the effective kind is undetermined (`kind: null`, or no `kind` and no `path` value to guess from) the
+   table has no row to apply, so nothing counts as "forbidden by the kind" at that entry: the entry itself
+   contributes [false] (it is invalid and is rejected by the implementation anyway, for the missing kind); the
+   entries nested under it are still examined. *)
+Definition forbidden (r : rule) : bool := match r with Forbidden => true | _ => false end.
+Definition null_on_forbidden {A} (r : rule) (x : an A) : bool := forbidden r && is_null x.
+
+Definition kind_null_forbidden (k : file_kind) (f : file_serial) : bool :=
+  null_on_forbidden (rule_path k) (fs_path f) ||
+  null_on_forbidden (rule_subfile k) (fs_subfile f) ||
+  null_on_forbidden (rule_pad_amount k) (fs_pad_amount f) ||
+  null_on_forbidden (rule_section k) (fs_section f) ||
+  null_on_forbidden (rule_linker_offset_name k) (fs_linker_offset_name f) ||
+  null_on_forbidden (rule_section_order k) (fs_section_order f) ||
+  null_on_forbidden (rule_files k) (fs_files f) ||
+  null_on_forbidden (rule_dir k) (fs_dir f).
+
+Fixpoint file_null_forbidden (f : file_serial) : bool :=
+  match effective_kind f with Some k => kind_null_forbidden k f | None => false end ||
+  match fs_files f with
+  | Value l => (fix any (l : list file_serial) : bool :=
+                  match l with [] => false | x :: r => file_null_forbidden x || any r end) l
+  | _ => false
+  end.
+
+Definition segment_null_forbidden (s : segment_serial) : bool :=
+  existsb file_null_forbidden (opt_list (ss_files s)).
+
+Definition Known_C16_null_forbidden_field (d : document_serial) : bool :=
+  existsb segment_null_forbidden (opt_list (ds_segments d)).
+
+(* the same document with those nulls removed (the field left out instead): what the implementation in effect
+   reads.  Only used in statements; nothing else of the document changes. *)
+Definition drop_null {A} (r : rule) (x : an A) : an A :=
+  match r, x with Forbidden, Null => Absent | _, _ => x end.
+
+Fixpoint file_without_forbidden_nulls (f : file_serial) : file_serial :=
+  let sub : an (list file_serial) :=
+    match fs_files f with
+    | Value l => Value ((fix go (l : list file_serial) : list file_serial :=
+                           match l with [] => [] | x :: r => file_without_forbidden_nulls x :: go r end) l)
+    | Null => Null
+    | Absent => Absent
+    end in
+  match effective_kind f with
+  | Some k =>
+      FileSerial (fs_unknown f) (drop_null (rule_path k) (fs_path f)) (fs_kind f)
+        (drop_null (rule_subfile k) (fs_subfile f)) (drop_null (rule_pad_amount k) (fs_pad_amount f))
+        (drop_null (rule_section k) (fs_section f)) (drop_null (rule_linker_offset_name k) (fs_linker_offset_name f))
+        (drop_null (rule_section_order k) (fs_section_order f)) (drop_null (rule_files k) sub)
+        (drop_null (rule_dir k) (fs_dir f)) (fs_conds f) (fs_keep f)
+  | None =>
+      FileSerial (fs_unknown f) (fs_path f) (fs_kind f) (fs_subfile f) (fs_pad_amount f) (fs_section f)
+        (fs_linker_offset_name f) (fs_section_order f) sub (fs_dir f) (fs_conds f) (fs_keep f)
+  end.
+
+Definition ss_with_files (s : segment_serial) (fl : option (list file_serial)) : segment_serial :=
+  SegmentSerial (ss_unknown s) (ss_name s) fl (ss_fixed_vram s) (ss_fixed_symbol s)
+    (ss_follows_segment s) (ss_vram_class s) (ss_dir s) (ss_gp_info s) (ss_conds s)
+    (ss_alloc_sections s) (ss_noload_sections s) (ss_subalign s) (ss_segment_start_align s)
+    (ss_segment_end_align s) (ss_section_start_align s) (ss_section_end_align s)
+    (ss_sections_start_alignment s) (ss_sections_end_alignment s) (ss_wildcard_sections s) (ss_fill_value s)
+    (ss_sections_subgroups s) (ss_keep s).
+
+Definition segment_without_forbidden_nulls (s : segment_serial) : segment_serial :=
+  ss_with_files s (option_map (map file_without_forbidden_nulls) (ss_files s)).
+
+Definition without_forbidden_nulls (d : document_serial) : document_serial :=
+  DocumentSerial (ds_unknown d) (ds_settings d) (ds_vram_classes d)
+    (option_map (map segment_without_forbidden_nulls) (ds_segments d))
+    (ds_entry d) (ds_symbol_assignments d) (ds_required_symbols d) (ds_asserts d).
 
 (* ---------- "an unknown key at any level" (nine record kinds) ---------- *)
 
